@@ -117,6 +117,9 @@ s=s[:i]+s[j:]
 open('support/timepb/cmp.go','w').write(s)
 open('support/timepb/duration.go','w').write('package timepb\n\nimport (\n\tdurpb "google.golang.org/protobuf/types/known/durationpb"\n)\n\n'+fn)
 PY
+# reformat and comment the schema sources (no change of meaning)
+sed -i 's/  bool some_boolean = 2;/  \/\/ a flag\n  bool   some_boolean   =   2 ; \/* trailing *\//' testpb/1.proto
+sed -i 's/^message B {/\/\/ B is small.\nmessage B\n{/' testpb/1.proto
 gofmt -l . > /dev/null
 go build ./... || { echo "SILENCE2 FIXTURE DOES NOT BUILD"; rm -rf $D; exit 2; }
 go vet ./support/... ./runtime/... ./anyutil/... >/dev/null 2>&1 || true
